@@ -785,6 +785,11 @@ impl<F: FileSystem + Sync> Server<F> {
                     flags2: (enabled_flags >> 32) as u32,
                     ..Default::default()
                 };
+                #[cfg(target_os = "linux")]
+                if capable.contains(FsOptions::INIT_EXT) {
+                    // The kernel only honours `flags2` when the reply carries FUSE_INIT_EXT.
+                    out.flags |= FsOptions::INIT_EXT.bits() as u32;
+                }
                 if enabled.contains(FsOptions::BIG_WRITES) {
                     out.max_write = MAX_REQ_PAGES as u32 * pagesize() as u32;
                 }
